@@ -340,7 +340,9 @@ def finish(ctx, corr, theorems, level_text, extra=None):
     lines = []
     if violations:
         # report the smallest failing input
-        violations.sort(key=lambda v: len(json.dumps(v[3])))
+        # (among those that carry their input; a failure recorded without its input only when there is no other)
+        has_input = lambda rep: any(k in rep for k in ('fields', 'replay_hex', 'input_hex', 'archive_hex', 'full_replay_hex', 'bytes'))
+        violations.sort(key=lambda v: (0 if has_input(v[3]) else 1, len(json.dumps(v[3]))))
         kind, cid, desc, rep = violations[0]
         rep = dict(rep)
         rep.update({'property': ctx.pid, 'case': cid, 'what': desc, 'broken_obligations': broken,
